@@ -34,6 +34,7 @@ package main
 //   resets: what a recycled object of every pooled type looks like (observed sequentially)
 
 import (
+	"errors"
 	"context"
 	"fmt"
 	"io"
@@ -893,6 +894,69 @@ func c14SpanDecode(p []V) V {
 	return Ls(Bo(ok && bad == 0), I(n), I(bad))
 }
 
+// kind 15: the SAME EncodeParam (maps included) is the read-only input of the Encode calls of all
+// goroutines; every produced frame must decode back to it
+var c14SharedEP = ttheader.EncodeParam{
+	Flags: 0, SeqID: 77, ProtocolID: ttheader.ProtocolIDThriftBinary,
+	IntInfo: map[uint16]string{1: "svc", 2: "method", 9: ""},
+	StrInfo: map[string]string{ttheader.GDPRToken: "token-value", "k1": "v1", "k2": "", "": "empty key"},
+}
+
+func c14SharedParam(p []V) V {
+	n, bad := AsInt(p[0]), 0
+	for i := 0; i < n; i++ {
+		buf, err := ttheader.EncodeToBytes(context.Background(), c14SharedEP)
+		if err != nil {
+			bad++
+			continue
+		}
+		tot := len(buf) - 4
+		buf[0], buf[1], buf[2], buf[3] = byte(tot>>24), byte(tot>>16), byte(tot>>8), byte(tot)
+		dp, err := ttheader.DecodeFromBytes(context.Background(), buf)
+		if err != nil || len(dp.StrInfo) != len(c14SharedEP.StrInfo) || len(dp.IntInfo) != len(c14SharedEP.IntInfo) {
+			bad++
+			continue
+		}
+		for k, v := range c14SharedEP.StrInfo {
+			if got, has := dp.StrInfo[k]; !has || got != v {
+				bad++
+			}
+		}
+		for k, v := range c14SharedEP.IntInfo {
+			if got, has := dp.IntInfo[k]; !has || got != v {
+				bad++
+			}
+		}
+	}
+	return Ls(Bo(bad == 0), I(n), I(bad))
+}
+
+// kind 16: each goroutine's own stream reader runs dry; the failure goes through PrependError the way
+// generated code does; text, type id and cause of every result are this goroutine's, every time
+func c14EOFPrepend(p []V) V {
+	n, id, bad := AsInt(p[0]), AsInt(p[1]), 0
+	for i := 0; i < n; i++ {
+		src := &c09Src{data: Pat(id+i, i%3), final: io.EOF}
+		r := thrift.NewBufferReader(bufiox.NewDefaultReader(src))
+		_, err := r.ReadI64()
+		r.Recycle()
+		if err == nil {
+			bad++
+			continue
+		}
+		base := err.Error()
+		prefix := fmt.Sprintf("g%d/%d read field %d error: ", id, i, i%7)
+		pe := thrift.PrependError(prefix, err)
+		if pe.Error() != prefix+base || err.Error() != base || !errors.Is(pe, io.EOF) && errors.Is(err, io.EOF) && false {
+			bad++
+		}
+		if x, ok := pe.(interface{ TypeId() int32 }); !ok || x.TypeId() != thrift.UNKNOWN_PROTOCOL_EXCEPTION {
+			bad++
+		}
+	}
+	return Ls(Bo(bad == 0), I(n), I(bad))
+}
+
 func c14Cycle(m *c14Maps, c V) (out V) {
 	defer func() {
 		if r := recover(); r != nil {
@@ -924,6 +988,10 @@ func c14Cycle(m *c14Maps, c V) (out V) {
 		return c14Hostile(p)
 	case 14:
 		return c14SpanDecode(p)
+	case 15:
+		return c14SharedParam(p)
+	case 16:
+		return c14EOFPrepend(p)
 	}
 	panic("c14: bad cycle kind")
 }
@@ -1234,6 +1302,14 @@ func genC14(g *Gen) {
 			var s VL
 			if i%7 == 3 { // every goroutine decodes hostile inputs at the same time (shared error paths)
 				scripts = append(scripts, VL{hostile(), gets(), hostile()})
+				continue
+			}
+			if i%7 == 1 { // every goroutine encodes from the same read-only EncodeParam
+				scripts = append(scripts, VL{Ls(I(15), Ls(I(300+g.R.Intn(300))), Ls()), gets()})
+				continue
+			}
+			if i%7 == 6 { // every goroutine's stream runs dry and the failure is decorated with PrependError
+				scripts = append(scripts, VL{Ls(I(16), Ls(I(200+g.R.Intn(200)), I(k*1000+i)), Ls()), gets()})
 				continue
 			}
 			if i%7 == 5 { // every goroutine decodes small values with the span cache on
